@@ -93,7 +93,7 @@ def run_probe(prop, pairs, max_devices=24):
                 # the address does not fit the address type and the final cast wraps: the static oracle's
                 # classification of the same definition (F6b: the range analysis does not follow block refs) applies
                 st = oracles.check(prop, c, a, mf)
-                if st and st.get("finding") == "F6b-minmax-ignores-block-ref-children":
+                if st and st.get("finding") in ("F6b-minmax-ignores-block-ref-children", "F24-minmax-ignores-what-a-ref-inherits"):
                     fid = st["finding"]
             viols.append({"case": p_gen.slim(c), "why": f"compiled driver: {why} at {json.dumps(where)[:200]}", "finding": fid})
             break
